@@ -462,6 +462,14 @@ func c18Run(c *engine.Ctx) {
 				}
 			} else if err != nil {
 				t.Fail("C18|refusal|"+label+"|refused-valid", "a valid pair was refused: %v", err)
+			} else if !isNilItem(a) && !isNilItem(b) {
+				// an accepted merge leaves to with from's id and type, exactly as from spells them
+				after := canon.Of(a, canon.Raw)
+				for _, term := range []string{"id", "type"} {
+					if !canon.Equal(after.F[term], fromBefore.F[term]) {
+						t.Fail("C18|refusal|"+label+"|"+term+"-not-from's", "after the accepted merge to has %s %s, from has %s", term, after.F[term], fromBefore.F[term])
+					}
+				}
 			}
 			if !isNilItem(b) && !canon.Equal(fromBefore, canon.Of(b, canon.Raw)) {
 				t.Fail("C18|refusal|"+label+"|from-modified", "`from` was modified")
